@@ -85,6 +85,16 @@ def gen_file(rng, path, nrows, big_field=False):
     kinds = [rng.pick(["int", "float", "bool", "text", "text"]) for _ in range(ncols)]
     if "text" not in kinds:
         kinds[rng.below(ncols)] = "text"
+    # mixed columns (F68): the value kind changes at row `switch`; the narrowest type that fits all sampled values is what the
+    # property asks for (bool then int -> text, int then float -> float, ...)
+    mixed = {}
+    if rng.chance(1, 3):
+        j = rng.below(ncols)
+        a, b = rng.pick([("bool", "int"), ("int", "bool"), ("int", "float"), ("float", "int"), ("bool", "float"), ("float", "bool"), ("int", "text"), ("bool", "text")])
+        mixed[j] = (a, b, rng.pick([1, 2, 3, 5, max(1, nrows // 2)]))
+        kinds[j] = a
+        if "text" not in [k for i, k in enumerate(kinds) if i not in mixed]:
+            kinds[(j + 1) % ncols] = "text"
     # a header can only be recognised when some column is not text (the header text then fails that column's type)
     header = rng.chance(2, 3) and any(k != "text" for k in kinds)
     eol = rng.pick(["\n", "\n", "\r\n"])
@@ -95,7 +105,9 @@ def gen_file(rng, path, nrows, big_field=False):
              "de" + chr(d) + "lim", chr(d), 'q"' + chr(d) + '"']
     for r in range(nrows):
         fs, ev = [], []
-        for k in kinds:
+        for ci, k in enumerate(kinds):
+            if ci in mixed and r >= mixed[ci][2]:
+                k = mixed[ci][1]
             # the first rows are complete: the reader's header decision ("first record fails some column's type") and
             # the type candidates are then determined by the generator's intent, not by where NULLs happen to fall
             if r >= 3 and rng.chance(1, 9):
@@ -127,7 +139,7 @@ def gen_file(rng, path, nrows, big_field=False):
             recs.append(chr(d).join(render_field(x, d, q, force=(x != "" and rng.chance(1, 8))) for x in fs))
         f.write(eol.join(recs) + (last_eol if recs else ""))
     types = {"int": "Int64", "float": "Float64", "bool": "Boolean", "text": "Utf8"}
-    return {"dialect": (d, q), "kinds": kinds, "header": header, "names": names if header else [f"column{i}" for i in range(ncols)],
+    return {"dialect": (d, q), "kinds": kinds, "mixed": mixed, "header": header, "names": names if header else [f"column{i}" for i in range(ncols)],
             "types": [types[k] for k in kinds], "rows": exp, "eol": eol, "last_eol": last_eol}
 
 
@@ -188,13 +200,13 @@ def expected_for(file_bytes):
     nf = len(srecs[0])
     cands = ["Boolean"] * nf
     try:
-        for rec in srecs[1:]:
-            for j, f in enumerate(rec[:nf]):
-                t = f.decode("utf-8")
-                if t == "":
-                    continue
-                while not valid(cands[j], t):
-                    cands[j] = ORDER[ORDER.index(cands[j]) + 1]
+        # the property: each column is typed by the narrowest of boolean, integer, float, text that fits the sampled values
+        # (Core/CsvInfer.lean: narrowestFitting; the repaired reader computes the same for its parsers, the ladder of the
+        # pinned commit does not - Props/C17 ladder_unsound_bool_then_int)
+        for j in range(nf):
+            vals = [rec[j].decode("utf-8") for rec in srecs[1:] if j < len(rec)]
+            vals = [t for t in vals if t != ""]
+            cands[j] = next(c for c in ORDER if all(valid(c, t) for t in vals))
         header = any(not valid(c, f.decode("utf-8", errors="replace")) for f, c in zip(srecs[0], cands))
         names = [f.decode("utf-8") for f in srecs[0]] if header else [f"column{i}" for i in range(nf)]
     except UnicodeDecodeError:
@@ -240,7 +252,7 @@ def sql_component(ck, tier, runner):
         info = gen_file(rng, path, nrows, big_field=big)
         size = os.path.getsize(path)
         exp = expected_for(open(path, "rb").read())
-        if exp[0] == "rows" and exp[3] == info["rows"]:
+        if exp[0] == "rows" and (info["mixed"] or exp[3] == info["rows"]):
             agree_intent += 1
         cfgs = [(2048, 1)] + [(rng.pick([1, 7, 64, 2048, 4096, 8192]) if not big else rng.pick([2048, 8192]), rng.pick([1, 2, 8])) for _ in range(1 if big else 2)]
         keep = False
@@ -268,7 +280,7 @@ def sql_component(ck, tier, runner):
             names = [c[0] for c in r["cols"]]
             types = [c[1] for c in r["cols"]]
             if names != exp[1] or types != exp[2]:
-                ck.violation("csv_read/schema", f"read_csv announces {list(zip(names, types))}, inference rules give {list(zip(exp[1], exp[2]))}",
+                ck.violation("csv_read/schema", f"read_csv announces {list(zip(names, types))}, the narrowest types fitting the sampled values are {list(zip(exp[1], exp[2]))}",
                              {"kind": "impl-vs-oracle", "stmts": stmts, **meta, "engine_cols": r["cols"]})
                 keep = True
                 continue
